@@ -289,7 +289,55 @@ impl Prop for C15 {
                         Err(c) => cx.violation(&format!("records-panic|{}|{}", c.site(), c.norm_msg()), json!({"panic": c.msg})),
                     }
                 }
-                cx.sample(|| json!({"records": "UNITS+MAG+ANGLE of 20 random libraries"}));
+                // ... and the reader's own path for reals somebody else wrote: the eight bytes of UNITS / MAG / ANGLE are replaced, in the written
+                // stream, by arbitrary normalised reals (56-bit mantissas included); what from_bytes hands back must be the correctly rounded value
+                for _ in 0..20 {
+                    let sentinels = [1234.5678f64, 8765.4321, 3.0625e-5, 77.125];
+                    let reals: Vec<u64> = (0..4).map(|_| Self::random_normalised(&mut cx.rng)).collect();
+                    cx.eval();
+                    cx.nontrivial(reals[0] ^ reals[1].rotate_left(13) ^ reals[2].rotate_left(29) ^ reals[3].rotate_left(43));
+                    let mut lib = GdsLibrary::new("r");
+                    lib.units = GdsUnits(sentinels[0], sentinels[1]);
+                    let mut st = GdsStruct::new("s");
+                    st.elems.push(GdsStructRef { name: "t".into(), strans: Some(GdsStrans { mag: Some(sentinels[2]), angle: Some(sentinels[3]), ..Default::default() }), ..Default::default() }.into());
+                    lib.structs.push(st);
+                    let mut buf = Vec::new();
+                    if lib.write(&mut buf).is_err() {
+                        cx.inconclusive("could not write the carrier library");
+                        continue;
+                    }
+                    let mut patched = 0;
+                    for (sv, b) in sentinels.iter().zip(reals.iter()) {
+                        let pat = encode_ref(*sv).unwrap().to_be_bytes();
+                        if let Some(at) = buf.windows(8).position(|w| w == pat) {
+                            buf[at..at + 8].copy_from_slice(&b.to_be_bytes());
+                            patched += 1;
+                        }
+                    }
+                    if patched != 4 {
+                        cx.count("foreign_reals_carrier_not_patched"); // the writer did not encode the sentinels as the reference does: the encode clause reports that
+                        continue;
+                    }
+                    let wide = reals.iter().any(|b| sig_bits(*b) > 53);
+                    match guard(|| GdsLibrary::from_bytes(&buf).map_err(|e| format!("{:?}", e))) {
+                        Ok(Ok(l2)) => {
+                            let stn = match l2.structs.get(0).and_then(|s| s.elems.get(0)) {
+                                Some(gds21::GdsElement::GdsStructRef(r)) => r.strans.clone().unwrap_or_default(),
+                                _ => Default::default(),
+                            };
+                            let got = [l2.units.0, l2.units.1, stn.mag.unwrap_or(f64::NAN), stn.angle.unwrap_or(f64::NAN)];
+                            let want: Vec<f64> = reals.iter().map(|b| decode_ref(*b)).collect();
+                            if got.iter().zip(want.iter()).any(|(a, b)| a.to_bits() != b.to_bits()) {
+                                cx.violation(&format!("records-foreign-reals|sig{}", if wide { ">53" } else { "<=53" }), json!({"reals": reals.iter().map(|b| hex(*b)).collect::<Vec<_>>(), "want": want, "got": got}));
+                            } else {
+                                cx.count(if wide { "records_foreign_wide_reals_ok" } else { "records_foreign_reals_ok" });
+                            }
+                        }
+                        Ok(Err(e)) => cx.violation("records-foreign-reals|error", json!({"error": e, "reals": reals.iter().map(|b| hex(*b)).collect::<Vec<_>>()})),
+                        Err(c) => cx.violation(&format!("records-foreign-reals|panic|{}|{}", c.site(), c.norm_msg()), json!({"panic": c.msg})),
+                    }
+                }
+                cx.sample(|| json!({"records": "UNITS+MAG+ANGLE of 20 random libraries, and of 20 streams carrying foreign reals"}));
             }
             other => cx.inconclusive(format!("unknown generator {}", other)),
         }
